@@ -10,10 +10,26 @@ ALLOWED_AXIOMS = []
 RULE = ("blocks: every (length, size, hop) in a grid x pad kind x entry point (blocks, Stream.blocks), "
         "heterogeneous items (ints, strings, None), snapshots taken at yield time; non-trivial = at least one "
         "complete block and at least one item left over after it (the tail rule is exercised), or hop > size "
-        "with skipped items; zero_pad: non-trivial = both pads > 0 and non-empty input. Distinct = distinct case hash.")
+        "with skipped items; zero_pad: non-trivial = both pads > 0 and non-empty input. "
+        "kinds: 19 input kinds (list, tuple, deque, bounded deque, range, array, generator, iterator, Stream, hub, "
+        "object with only __iter__, list/tuple subclasses incl. one with its own __iter__, chain, map, dict views, "
+        "repeat) x 5 entry points (function, Stream.blocks, copy, hub.blocks, two hub copies in lockstep) x "
+        "positional / keyword / mixed arguments, hop given / omitted / None, pad given / omitted, 14 typed pads "
+        "(0 0.0 -0.0 False ... compared WITH their type); the caller's container must be left as it was; "
+        "non-trivial = padded tail after a complete block. calls: 2-4 calls in one process (equal-but-different-type "
+        "pads with the same pad count in every order across blocks and zero_pad, results consumed alternately, the "
+        "same list object again unchanged / longer / shorter, same arguments again). hist / zhist: the owner changes "
+        "the list (extend append += truncate setitem insert del slice-assign, only items not handed over yet) between "
+        "two next() calls, 8 script patterns x size 1..4 x hop 1..5 x 6 start lengths through 18 kind/entry "
+        "combinations; non-trivial = a change made after a complete block followed by another complete block. "
+        "Distinct = distinct case hash.")
 EXHAUSTIVE = {"quick": True, "thorough": False}
-trusted_base = ["item type of the model is the 4-constructor 'item' (ints, strings, None, exact rationals); "
-                "Python equality between items of different types is not modelled"]
+trusted_base = ["item type of the model is the 4-constructor 'item' (ints, strings, None, exact rationals), in the round-2 "
+                "families paired with the Python type name (negative zero is its own type tag, tuples travel as repr); "
+                "Python equality between items of different types is not modelled",
+                "hop omitted / None is resolved to hop = size by the harness (the one-line default of the code)",
+                "the items a source hands over (reversed for the list subclass with its own __iter__) are computed by "
+                "the harness"]
 ASSUMPTIONS = ["collections.deque(maxlen=) and generator semantics of CPython are as documented"]
 
 POOL = [1, "a", None, 2, "b", 3, 4, "c", 5, 6, 7, "d", 8, 9, 10, "e"]
@@ -120,10 +136,27 @@ def lit_zpad(c, o):
                                   L.lst([L.item(v) for v in c["xs"]]), ob)
 
 
+import C08_fam2 as F2
+import C08_live as LV
+
 IMPORTS = "From AL Require Import C08.Model C08.Spec C08.Check."
 FAMILIES = {
   "blocks": Family("blocks", IMPORTS, "bcase", "corr_blocks", "holds_blocks",
                    gen_blocks, run_blocks, lit_blocks, nontrivial_blocks),
   "zpad": Family("zpad", IMPORTS, "zcase", "corr_zpad", "holds_zpad",
                  gen_zpad, run_zpad, lit_zpad, lambda c, o: c["left"] > 0 and c["right"] > 0 and len(c["xs"]) > 0),
+  # round 2: every input kind x entry point (function, Stream.blocks, copy, hub, two hub copies) x argument style,
+  # items and pads with their Python type visible
+  "kinds": Family("kinds", IMPORTS, "pcall", "corr_call", "holds_call",
+                  F2.gen_kinds, F2.run_kinds, F2.lit_call, F2.nontrivial_kinds),
+  # 2-4 calls in one process: equal-but-different-type pads with the same pad count, results consumed
+  # alternately, the same list object again (unchanged / longer / shorter), the same arguments again
+  "calls": Family("calls", IMPORTS, "list pcall", "corr_calls", "holds_calls",
+                  F2.gen_calls, F2.run_calls_case, F2.lit_calls, lambda c, o: len(c["calls"]) >= 2),
+  # the list is changed by its owner between two next() calls; resumable generator model / spec on the live list
+  "hist": Family("hist", IMPORTS, "hcase", "corr_hist", "holds_hist",
+                 LV.gen_hist, LV.run_hist, LV.lit_hist, lambda c, o: c["mid"]),
+  "zhist": Family("zhist", IMPORTS, "zhcase", "corr_zhist", "holds_zhist",
+                  LV.gen_zhist, LV.run_zhist, LV.lit_zhist,
+                  lambda c, o: any(op["op"] != "next" for op in c["ops"])),
 }
